@@ -460,6 +460,18 @@ class Anchors:
             getattr(self, n)
         self.roles
 
+    def summary_resolved(self):
+        """Summary of the anchors that were actually resolved by this run."""
+        out = {}
+        for n in self.NAMES:
+            if hasattr(self, "_" + n):
+                v = getattr(self, n)
+                if isinstance(v, (set, frozenset, list)):
+                    out[n] = sorted(self._d(x) for x in v)
+                else:
+                    out[n] = self._d(v)
+        return out
+
     def summary(self):
         out = {}
         for n in self.NAMES:
